@@ -35,7 +35,7 @@ MANIFEST = {
                   'dominance predicate over the atoms all(A<=B), all(B<=A) (comparison operators, '
                   'all/any, &,|,~, De Morgan, operand swap), orientation by reduction-axis tracking'
                   '; predicates evaluated per `strict` flag on flag-restricted CFGs with reaching-definition unfolding; function- and method-style reductions; difference-comparison rule for +-inf'
-                  '; path-condition implication (truth tables) for the candidate filter through carried values; strictness of the rank predicate; label-column layout of the population converter'),
+                  '; path-condition implication (truth tables) for the candidate filter through carried values; strictness of the rank predicate; label-column layout of the population converter; broadcast form of the rank predicate (roles from inserted axes); finite three-trial model of the selection step of ListOptimalTrials (returned trials == flagged trials)'),
     'level_text': (
         'Static: the service filters candidates by SUCCEEDED / all metrics / not-NaN, flips the '
         'sign of exactly the MINIMIZE metrics, and each of the five dominance predicates in the '
